@@ -4,7 +4,7 @@ Engine E1 (complete products).  Oracle: ref.compact (byte-string formulation of 
 """
 import itertools
 
-from mc.core import Family, Viol, HarnessError, StepHistories
+from mc.core import Family, Viol, HarnessError, StepHistories, CaseHistories
 from ref import compact as R
 
 PROP = 'C17'
